@@ -86,6 +86,14 @@ MUTATIONS = [
     ("dask_expr/_expr.py", "        reference = aligned[0] if aligned else dependencies[0]\n        for arg in aligned:", "        reference = dependencies[0]\n        for arg in aligned:", "vf.contracts.divisions:BlockwiseDivisions", "post:divisions-of-first-non-broadcast"),
     ("dask_expr/_merge.py", "        divisions = frame._divisions()\n        if keeps_index:\n            return divisions\n        # merging on columns", "        divisions = frame._divisions()\n        if keeps_index or self.how == \"inner\":\n            return divisions\n        # merging on columns", "vf.contracts.divisions:BroadcastJoinDivisions", "UNDECIDED-OR-REFUTED"),
     ("dask_expr/_merge.py", "        if self.broadcast_side == \"left\":\n            frame = self.right\n            keeps_index = self.left_index or _contains_index_name(\n                self.left._meta, self.left_on\n            )\n        else:\n            frame = self.left", "        if self.broadcast_side == \"left\":\n            frame = self.right\n            keeps_index = self.right_index or _contains_index_name(\n                self.left._meta, self.left_on\n            )\n        else:\n            frame = self.left", "vf.contracts.divisions:BroadcastJoinDivisions", "post:npartitions-of-other-input"),
+    # optimizer drivers (C01 / C19 / C14)
+    ("dask_expr/_core.py", "            if new._name in seen:\n                raise RuntimeError(", "            if new._name in seen:\n                break\n            if False:\n                raise RuntimeError(", "vf.contracts.drivers:SimplifyDriver", "post:result-is-a-fixed-point-of-simplify_once"),
+    ("dask_expr/_core.py", "            new = expr.simplify_once(dependents=dependents, simplified={})\n            if new._name == expr._name:\n                break", "            new = expr.simplify_once(dependents=dependents, simplified={})\n            if new._name != expr._name:\n                break", "vf.contracts.drivers:SimplifyDriver", "post:result-is-a-fixed-point-of-simplify_once"),
+    ("dask_expr/_core.py", "            seen.add(new._name)\n            expr = new\n        return expr", "            seen.add(new._name)\n            expr = new\n        return self", "vf.contracts.drivers:SimplifyDriver", "post:result-is-a-fixed-point-of-simplify_once"),
+    ("dask_expr/_core.py", "            new = expr.lower_once()\n            if new._name == expr._name:\n                break\n            expr = new", "            new = expr.lower_once()\n            expr = new\n            break", "vf.contracts.drivers:LowerCompletelyDriver", "post:result-is-a-fixed-point-of-lower_once"),
+    ("dask_expr/_expr.py", "    # dependencies of fused groups behind their back\n    expr = expr.lower_completely()\n", "    # dependencies of fused groups behind their back\n", "vf.contracts.drivers:OptimizeUntil", "pre:optimize_blockwise_fusion:plan-is-fully-lowered"),
+    ("dask_expr/_expr.py", "    # Lower\n    expr = expr.lower_completely()\n    if stage == \"physical\":\n        return expr", "    # Lower\n    expr = expr.lower_once()\n    if stage == \"physical\":\n        return expr", "vf.contracts.drivers:OptimizeUntil", "post:physical-stages-return-fully-lowered-plans"),
+    ("dask_expr/_expr.py", "    result = expr\n    if stage == \"logical\":\n        return result\n", "    current = expr\n    if stage == \"logical\":\n        return current\n    result = current\n", "vf.contracts.drivers:OptimizeUntil", None),
     # harmless edits: renamed local, reordered independent statements, extra statement
     ("dask_expr/_expr.py", "        new_divisions = []\n        for part in self._partitions:\n            new_divisions.append(full_divisions[part])\n        new_divisions.append(full_divisions[part + 1])\n        return tuple(new_divisions)", "        picked = []\n        for part in self._partitions:\n            picked.append(full_divisions[part])\n        picked.append(full_divisions[part + 1])\n        return tuple(picked)", "vf.contracts.partitions:PFDivisions", None),
     ("dask_expr/_repartition.py", "        npartitions = self.new_partitions\n        npartitions_input = self.frame.npartitions\n", "        npartitions_input = self.frame.npartitions\n        npartitions = self.new_partitions\n", "vf.contracts.repartition:FewerBoundaries", None),
